@@ -318,8 +318,14 @@ pub fn scalar_order(a: &MVal, b: &MVal) -> std::cmp::Ordering {
             let ((ia, fa), (ib, fb)) = (num(a), num(b));
             match (ia, ib) {
                 (Some(x), Some(y)) => x.cmp(&y),
-                // filters are only generated under number profiles where this conversion is exact and no NaN exists
-                _ => fa.partial_cmp(&fb).unwrap_or(Equal),
+                // filters are only generated under number profiles where this conversion is exact;
+                // NaN is equal to itself and greater than every other number
+                _ => match (fa.is_nan(), fb.is_nan()) {
+                    (true, true) => Equal,
+                    (true, false) => Greater,
+                    (false, true) => Less,
+                    _ => fa.partial_cmp(&fb).unwrap_or(Equal),
+                },
             }
         }
         _ => rank(a).cmp(&rank(b)),
